@@ -90,7 +90,7 @@ def _pairs(ctx, rng):
 
 def generate(ctx, rng):
     for i, (lst, paging) in enumerate(_lists(ctx, rng)):
-        yield ("l", i), {"records": [[cid, val] for cid, val in lst], "paging": paging, "noise": paging and i % 3 == 0}
+        yield ("l", i), {"records": [[cid, val] for cid, val in lst], "paging": paging, "noise": paging and i % 3 == 0, "abandon": paging and i % 2 == 1}
     for i, lst in enumerate(_pairs(ctx, rng)):
         yield ("p", i), {"records": [[cid, val] for cid, val in lst], "paging": False}
     # long lists of maximum-size records (frames of 150-250 bytes), also over the V3 transport
@@ -150,17 +150,47 @@ def run_case(ctx, case):
         model = ACModel()
         model.caps_pages = [records] if k is None else [records[:k], records[k:]]
         dev = SimDevice(net, version=version, token=tok, key=dkey, device_id=0x55, ac=model)
-        if case.get("noise") and k is not None:
-            # the device also pushes a capabilities-id notification (frame type 5) ahead of each page in the same exchange
-            def on_exchange(conn, req, packets, meta, dev=dev):
+        hang = {"at": None, "seen": 0}
+        abandon = bool(case.get("abandon")) and k is not None and (k + n) % 3 == 0
+        mark = {"n0": 0}
+
+        def on_exchange(conn, req, packets, meta, dev=dev, hang=hang):
+            if hang["at"] is not None:
+                hang["seen"] += 1
+                if hang["seen"] >= hang["at"]:
+                    return []                     # the unit does not answer this request (the caller will give up)
+            if case.get("noise") and k is not None:
+                # the device also pushes a capabilities-id notification (frame type 5) ahead of each page in the same exchange
                 note = acframe.build(bytes([0xB5, 0x01, 0x14, 0x02, 0x01, 0x01]), 5)
                 return [(0, dev.wrap(conn, note))] + [(0, p) for p in packets]
-            dev.on_exchange = on_exchange
+            return None
+        dev.on_exchange = on_exchange
 
-        async def go(loop, dev=dev):
+        async def go(loop, dev=dev, hang=hang, abandon=abandon, mark=mark, model=model, k=k):
+            import asyncio
             ac = AC(ip=dev.host, port=dev.port, device_id=dev.device_id)
             if version == 3:
                 await ac.authenticate(tok, dkey)
+            if abandon:
+                # an earlier query of the same object was abandoned by its caller (deadline) while its first request was
+                # unanswered; nothing of it may change what the next query reports
+                hang["at"] = 1         # (the first request: no page has been seen, so nothing can legitimately have been learned)
+                if k % 2 == 0:
+                    # ... or the connection attempt itself never completes (a cancellation that arrives while connecting is not
+                    # turned into a timeout by the transport)
+                    for c in dev.conns:
+                        if not c.closed:
+                            c.emit([(0, "fin")])
+                    await asyncio.sleep(0.01)
+                    dev.connect_script = ["hang"]
+                try:
+                    await asyncio.wait_for(ac.get_capabilities(), 0.5)
+                except (asyncio.TimeoutError, TimeoutError, asyncio.CancelledError):
+                    pass
+                hang["at"] = None
+                dev.connect_script = []
+                await asyncio.sleep(7.0)
+                mark["n0"] = len(model.commands)
             await ac.get_capabilities()
             return c13._snapshot(ac)[1]
 
@@ -170,7 +200,9 @@ def run_case(ctx, case):
             ctx.count((key, k), kind="paging-raised")
             ctx.violation("paging-raises", f"get_capabilities raised {type(e).__name__}: {e} (split {k})", case)
             return
-        pages = [c[1] for c in model.commands if c[0] == "caps"]
+        pages = [c[1] for c in model.commands[mark["n0"]:] if c[0] == "caps"]
+        if abandon:
+            ctx.bump("paging-after-an-abandoned-query")
         snaps.append((k, snap, pages))
     base = snaps[0][1]
     for k, snap, pages in snaps[1:]:
